@@ -23,6 +23,7 @@ RULE = ('random gridded IOAPI files (negative origins, non-square cells, '
         'the spec.')
 RULE += (' Windows are also given as numpy integers; sources also written to disk and reopened.')
 RULE += (' A share of the gridded files is the IOAPI-class object the CAMx gridded READER (uamiv) returns for an image written by the independent codec (whole-hour steps up to 168 h, ETFLAG present, header completed by the class).')
+RULE += (' After a time window the same source object is re-dated (flags and start edited consistently) and windowed again: the second window is referenced to the new times.')
 ASSUMPTIONS = [
     'time oracle = integer YYYYJJJ/HHMMSS arithmetic in the harness (not '
     'getTimes)',
